@@ -11,15 +11,15 @@ Variables (op1 op2 : Z -> Z -> Z) (sg : Z).
 Hypothesis Hop1 : forall t x, op1 t x = t + sg * x.
 Hypothesis Hop2 : forall t x, op2 t x = t - sg * x.
 Variables (n vertex : nat) (neighbors : dictZ) (xval : nat -> Z).
-Definition move_body (acc_ : option dictZ) (neighbor : nat) : option dictZ :=
-  match acc_ with None => None | Some self_degrees =>
-  match d_find neighbor neighbors with None => None | Some t2_ => let valence := t2_ in
-  match d_find neighbor self_degrees with None => None | Some t3_ => let self_degrees := d_set neighbor (op1 t3_ valence) self_degrees in
-  match d_find vertex self_degrees with None => None | Some t4_ => let self_degrees := d_set vertex (op2 t4_ valence) self_degrees in
-  Some self_degrees end end end end.
+Definition move_body (acc_ : pyres dictZ dictZ) (neighbor : nat) : pyres dictZ dictZ :=
+  match acc_ with PyExn e_ => PyExn e_ | PyOk self_degrees =>
+  match d_find neighbor neighbors with None => PyExn self_degrees | Some t2_ => let valence := t2_ in
+  match d_find neighbor self_degrees with None => PyExn self_degrees | Some t3_ => let self_degrees := d_set neighbor (op1 t3_ valence) self_degrees in
+  match d_find vertex self_degrees with None => PyExn self_degrees | Some t4_ => let self_degrees := d_set vertex (op2 t4_ valence) self_degrees in
+  PyOk self_degrees end end end end.
 Lemma move_loop : forall ks dd f, NoDup ks -> (forall w, In w ks -> w <> vertex /\ (w < n)%nat /\ d_find w neighbors = Some (xval w)) -> (vertex < n)%nat ->
   NoDup (d_keys dd) -> (forall u, d_find u dd = if Nat.ltb u n then Some (f u) else None) ->
-  exists dd', fold_left move_body ks (Some dd) = Some dd' /\ NoDup (d_keys dd') /\
+  exists dd', fold_left move_body ks (PyOk dd) = PyOk dd' /\ NoDup (d_keys dd') /\
     forall u, d_find u dd' = if Nat.ltb u n then Some (if Nat.eqb u vertex then f u - sg * zsum xval ks else f u + (if mem u ks then sg * xval u else 0)) else None.
 Proof. induction ks as [|w ks IH]; intros dd f Hnd Hks Hv Hdk Hf.
   - exists dd. split; [reflexivity|]. split; [exact Hdk|]. intros u. rewrite Hf. destruct (Nat.ltb u n); [|reflexivity]. cbn [zsum mem existsb]. destruct (Nat.eqb u vertex); f_equal; lia.
@@ -73,7 +73,7 @@ Proof. intros Hv [_ Hr] E. assert (E' : d_mem u row = false).
 
 (* lending_move (= firing_move) and borrowing_move *)
 Theorem lending_move_refines dd D v : rep_div n dd D ->
-  match CFDivisor_lending_move gg dd v with None => inb g v = false | Some dd' => inb g v = true /\ rep_div n dd' (lend g D v) end.
+  match CFDivisor_lending_move gg dd v with PyExn st => inb g v = false /\ st = dd | PyOk dd' => inb g v = true /\ rep_div n dd' (lend g D v) end.
 Proof. intros (HL & Hk & Hf). unfold CFDivisor_lending_move, inb. destruct (Nat.ltb_spec v n) as [Hv|Hv].
   - destruct (row_of v Hv) as (row & Er & Rr). unfold d_mem. rewrite Er. cbn [negb].
     destruct (move_loop Z.add Z.sub 1 ltac:(intros; lia) ltac:(intros; lia) n v row (mult g v) (d_keys row) dd (nthZ D)) as (dd' & F & K & L).
@@ -85,9 +85,9 @@ Proof. intros (HL & Hk & Hf). unfold CFDivisor_lending_move, inb. destruct (Nat.
     + unfold move_body in F. cbn beta iota zeta in F. cbn beta iota zeta. unfold dictZ in *. rewrite F. split; [reflexivity|]. unfold lend. apply rep_div_intro; [exact K|]. intros u. rewrite L.
       destruct (Nat.ltb u n); [|reflexivity]. f_equal. destruct (Nat.eqb_spec u v) as [Q|Q]; [subst u; rewrite (row_sum v row Hv Rr); lia|].
       destruct (mem u (d_keys row)) eqn:E; [lia|]. rewrite (not_in_row v row u Hv Rr E). lia.
-  - unfold d_mem. rewrite (no_row v Hv). reflexivity. Qed.
+  - unfold d_mem. rewrite (no_row v Hv). split; reflexivity. Qed.
 Theorem borrowing_move_refines dd D v : rep_div n dd D ->
-  match CFDivisor_borrowing_move gg dd v with None => inb g v = false | Some dd' => inb g v = true /\ rep_div n dd' (borrow g D v) end.
+  match CFDivisor_borrowing_move gg dd v with PyExn st => inb g v = false /\ st = dd | PyOk dd' => inb g v = true /\ rep_div n dd' (borrow g D v) end.
 Proof. intros (HL & Hk & Hf). unfold CFDivisor_borrowing_move, inb. destruct (Nat.ltb_spec v n) as [Hv|Hv].
   - destruct (row_of v Hv) as (row & Er & Rr). unfold d_mem. rewrite Er. cbn [negb].
     destruct (move_loop Z.sub Z.add (-1) ltac:(intros; lia) ltac:(intros; lia) n v row (mult g v) (d_keys row) dd (nthZ D)) as (dd' & F & K & L).
@@ -99,16 +99,16 @@ Proof. intros (HL & Hk & Hf). unfold CFDivisor_borrowing_move, inb. destruct (Na
     + unfold move_body in F. cbn beta iota zeta in F. cbn beta iota zeta. unfold dictZ in *. rewrite F. split; [reflexivity|]. unfold borrow. apply rep_div_intro; [exact K|]. intros u. rewrite L.
       destruct (Nat.ltb u n); [|reflexivity]. f_equal. destruct (Nat.eqb_spec u v) as [Q|Q]; [subst u; rewrite (row_sum v row Hv Rr); lia|].
       destruct (mem u (d_keys row)) eqn:E; [lia|]. rewrite (not_in_row v row u Hv Rr E). lia.
-  - unfold d_mem. rewrite (no_row v Hv). reflexivity. Qed.
+  - unfold d_mem. rewrite (no_row v Hv). split; reflexivity. Qed.
 
 (* chip_transfer *)
 Theorem chip_transfer_refines dd D a b k : rep_div n dd D ->
   match CFDivisor_chip_transfer dd a b k with
-  | None => (k <=? 0) || negb (inb g a && inb g b) = true
-  | Some dd' => ((k <=? 0) || negb (inb g a && inb g b) = false) /\ rep_div n dd' (transfer g D a b k) end.
-Proof. intros (HL & Hk & Hf). unfold CFDivisor_chip_transfer, inb. destruct (Z.leb_spec k 0) as [Hk0|Hk0]; [reflexivity|]. cbn [orb].
-  unfold d_mem. rewrite (Hf a). destruct (Nat.ltb_spec a n) as [Ha|Ha]; cbn [negb andb]; [|reflexivity].
-  rewrite (Hf b). destruct (Nat.ltb_spec b n) as [Hb|Hb]; cbn [negb]; [|reflexivity].
+  | PyExn st => ((k <=? 0) || negb (inb g a && inb g b) = true) /\ st = dd
+  | PyOk dd' => ((k <=? 0) || negb (inb g a && inb g b) = false) /\ rep_div n dd' (transfer g D a b k) end.
+Proof. intros (HL & Hk & Hf). unfold CFDivisor_chip_transfer, inb. destruct (Z.leb_spec k 0) as [Hk0|Hk0]; [split; reflexivity|]. cbn [orb].
+  unfold d_mem. rewrite (Hf a). destruct (Nat.ltb_spec a n) as [Ha|Ha]; cbn [negb andb]; [|split; reflexivity].
+  rewrite (Hf b). destruct (Nat.ltb_spec b n) as [Hb|Hb]; cbn [negb]; [|split; reflexivity].
   rewrite d_find_set, (Hf b). assert (Lb : Nat.ltb b n = true) by (apply Nat.ltb_lt; exact Hb). assert (La : Nat.ltb a n = true) by (apply Nat.ltb_lt; exact Ha).
   assert (M1 : d_mem a dd = true) by (unfold d_mem; rewrite (Hf a), La; reflexivity).
   destruct (Nat.eqb_spec b a) as [Q|Q].
@@ -133,7 +133,7 @@ Proof. intros (HL & Hk & Hf). unfold CFDivisor_is_effective, is_effective_b.
     { apply d_find_some_in. rewrite Hf. destruct (Nat.ltb_spec v n); [reflexivity|lia]. }
     assert (existsb (fun kv_ : nat * Z => let '(_, degree) := kv_ in degree <? 0) dd = true); [|congruence].
     apply existsb_exists. exists (v, nthZ D v). split; [assumption|]. apply Z.ltb_lt. exact L. Qed.
-Theorem get_degree_refines dd D v : rep_div n dd D -> CFDivisor_get_degree dd v = if inb g v then Some (nthZ D v) else None.
+Theorem get_degree_refines dd D v : rep_div n dd D -> CFDivisor_get_degree dd v = if inb g v then PyOk (nthZ D v) else PyExn tt.
 Proof. intros (HL & Hk & Hf). unfold CFDivisor_get_degree, inb, d_mem. rewrite (Hf v). destruct (Nat.ltb v n); reflexivity. Qed.
 End G.
 
@@ -146,22 +146,22 @@ Hypothesis Hgg : rep_graph gg g.
 Local Notation n := (nv g).
 
 Lemma chip_transfer_ok dd D a b k : rep_div n dd D -> 0 < k -> (a < n)%nat -> (b < n)%nat ->
-  exists dd', CFDivisor_chip_transfer dd a b k = Some dd' /\ rep_div n dd' (transfer g D a b k).
+  exists dd', CFDivisor_chip_transfer dd a b k = PyOk dd' /\ rep_div n dd' (transfer g D a b k).
 Proof. intros HR Hk Ha Hb. pose proof (chip_transfer_refines g dd D a b k HR) as H. destruct (CFDivisor_chip_transfer dd a b k) as [dd'|].
   - exists dd'. split; [reflexivity|apply H].
-  - exfalso. unfold inb in H. destruct (Z.leb_spec k 0); [lia|]. destruct (Nat.ltb_spec a n); [|lia]. destruct (Nat.ltb_spec b n); [|lia]. discriminate. Qed.
+  - exfalso. destruct H as [H _]. unfold inb in H. destruct (Z.leb_spec k 0); [lia|]. destruct (Nat.ltb_spec a n); [|lia]. destruct (Nat.ltb_spec b n); [|lia]. discriminate. Qed.
 Lemma nthZ_transfer D a b k u : (u < n)%nat -> nthZ (transfer g D a b k) u = nthZ D u - (if Nat.eqb u a then k else 0) + (if Nat.eqb u b then k else 0).
 Proof. intros Hu. unfold transfer. rewrite nthZ_tab by exact Hu. reflexivity. Qed.
 
 Variable F : list nat.
-Definition inner_body (v : nat) (acc_ : option dictZ) (kv_ : nat * Z) : option dictZ :=
-  match acc_ with None => None | Some self_degrees => let '(neighbor_vertex, valence) := kv_ in
-  if negb (s_mem neighbor_vertex F) then match CFDivisor_chip_transfer self_degrees v neighbor_vertex valence with None => None | Some self_degrees => Some self_degrees end
-  else Some self_degrees end.
+Definition inner_body (v : nat) (acc_ : pyres dictZ dictZ) (kv_ : nat * Z) : pyres dictZ dictZ :=
+  match acc_ with PyExn e_ => PyExn e_ | PyOk self_degrees => let '(neighbor_vertex, valence) := kv_ in
+  if negb (s_mem neighbor_vertex F) then match CFDivisor_chip_transfer self_degrees v neighbor_vertex valence with PyExn self_degrees => PyExn self_degrees | PyOk self_degrees => PyOk self_degrees end
+  else PyOk self_degrees end.
 Definition inner_model (v : nat) (row : dictZ) (D : list Z) : list Z :=
   fold_left (fun D kv => if s_mem (fst kv) F then D else transfer g D v (fst kv) (snd kv)) row D.
 Lemma inner_loop v : (v < n)%nat -> forall row dd D, rep_div n dd D -> (forall w x, In (w, x) row -> (w < n)%nat /\ 0 < x) ->
-  exists dd', fold_left (inner_body v) row (Some dd) = Some dd' /\ rep_div n dd' (inner_model v row D).
+  exists dd', fold_left (inner_body v) row (PyOk dd) = PyOk dd' /\ rep_div n dd' (inner_model v row D).
 Proof. intros Hv. induction row as [|[w x] row IH]; intros dd D HR Hrow.
   - exists dd. split; [reflexivity|exact HR].
   - cbn [fold_left]. unfold inner_body at 2. unfold inner_model. cbn [fold_left fst snd]. destruct (s_mem w F) eqn:E; cbn [negb].
@@ -181,10 +181,10 @@ Proof. intros Hu. unfold inner_model. induction row as [|[w x] row IH]; intros D
     + rewrite IH, nthZ_transfer by exact Hu. rewrite (Nat.eqb_sym w u). destruct (Nat.eqb u v), (Nat.eqb u w); lia. Qed.
 
 Definition rowf (v : nat) : dictZ := match d_find v gg with Some r => r | None => [] end.
-Definition outer_body (acc_ : option dictZ) (vertex : nat) : option dictZ :=
-  match acc_ with None => None | Some self_degrees =>
-  match d_find vertex gg with None => None | Some t1_ => let neighbors := t1_ in
-  match fold_left (inner_body vertex) neighbors (Some self_degrees) with None => None | Some self_degrees => Some self_degrees end end end.
+Definition outer_body (acc_ : pyres dictZ dictZ) (vertex : nat) : pyres dictZ dictZ :=
+  match acc_ with PyExn e_ => PyExn e_ | PyOk self_degrees =>
+  match d_find vertex gg with None => PyExn self_degrees | Some t1_ => let neighbors := t1_ in
+  match fold_left (inner_body vertex) neighbors (PyOk self_degrees) with PyExn e_ => PyExn e_ | PyOk self_degrees => PyOk self_degrees end end end.
 Definition outer_model (Fl : list nat) (D : list Z) : list Z := fold_left (fun D v => inner_model v (rowf v) D) Fl D.
 
 Lemma rowf_facts v : (v < n)%nat -> d_find v gg = Some (rowf v) /\ rep_row g v (rowf v).
@@ -195,7 +195,7 @@ Proof. intros Hv Hin. destruct (rowf_facts v Hv) as [_ Rr]. pose proof Rr as [Nd
   assert (Hk : In w (d_keys (rowf v))) by (apply in_map_iff; exists (w, x); split; [reflexivity|exact Hin]).
   destruct (row_keys g Hwf v (rowf v) w Hv Rr Hk) as (A & B & C & P). rewrite C in E. inversion E. subst x. auto. Qed.
 Lemma outer_loop : forall Fl dd D, rep_div n dd D -> (forall v, In v Fl -> (v < n)%nat) ->
-  exists dd', fold_left outer_body Fl (Some dd) = Some dd' /\ rep_div n dd' (outer_model Fl D).
+  exists dd', fold_left outer_body Fl (PyOk dd) = PyOk dd' /\ rep_div n dd' (outer_model Fl D).
 Proof. induction Fl as [|v Fl IH]; intros dd D HR HF.
   - exists dd. split; [reflexivity|exact HR].
   - assert (Hv : (v < n)%nat) by (apply HF; now left). destruct (rowf_facts v Hv) as [Er Rr]. cbn [fold_left]. unfold outer_body at 2. rewrite Er. cbn zeta.
@@ -236,28 +236,36 @@ Variable gg : dictD.
 Hypothesis Hgg : rep_graph gg g.
 Local Notation n := (nv g).
 
-Definition collect_body (acc_ : option (list nat)) (name : nat) : option (list nat) :=
-  match acc_ with None => None | Some firing_set_vertices => let vertex := name in
-  if negb (d_mem vertex gg) then None else let firing_set_vertices := s_add vertex firing_set_vertices in Some firing_set_vertices end.
-Lemma collect_none L : fold_left collect_body L None = None.
+Variable dd0 : dictZ.
+Definition collect_body (acc_ : pyres dictZ (list nat)) (name : nat) : pyres dictZ (list nat) :=
+  match acc_ with PyExn e_ => PyExn e_ | PyOk firing_set_vertices => let vertex := name in
+  if negb (d_mem vertex gg) then PyExn dd0 else let firing_set_vertices := s_add vertex firing_set_vertices in PyOk firing_set_vertices end.
+Lemma collect_none L e : fold_left collect_body L (PyExn e) = PyExn e.
 Proof. induction L as [|x L IH]; [reflexivity|exact IH]. Qed.
 Lemma collect_loop : forall L acc, NoDup acc ->
-  match fold_left collect_body L (Some acc) with
-  | None => exists x, In x L /\ ~ (x < n)%nat
-  | Some fsv => NoDup fsv /\ (forall x, In x fsv <-> In x acc \/ In x L) /\ (forall x, In x L -> (x < n)%nat) end.
+  match fold_left collect_body L (PyOk acc) with
+  | PyExn e => e = dd0 /\ exists x, In x L /\ ~ (x < n)%nat
+  | PyOk fsv => NoDup fsv /\ (forall x, In x fsv <-> In x acc \/ In x L) /\ (forall x, In x L -> (x < n)%nat) end.
 Proof. induction L as [|x L IH]; intros acc Hnd.
   - cbn [fold_left]. split; [exact Hnd|]. split; [intros x; cbn [In]; tauto|intros x []].
   - cbn [fold_left]. unfold collect_body at 2. cbn zeta. rewrite (rep_graph_mem gg g x Hgg). destruct (Nat.ltb_spec x n) as [Hx|Hx]; cbn [negb].
-    + specialize (IH (s_add x acc) (s_add_NoDup x acc Hnd)). destruct (fold_left collect_body L (Some (s_add x acc))) as [fsv|].
+    + specialize (IH (s_add x acc) (s_add_NoDup x acc Hnd)). destruct (fold_left collect_body L (PyOk (s_add x acc))) as [fsv|e].
       * destruct IH as (A & B & C). split; [exact A|]. split.
         -- intros y. rewrite B, s_add_In. cbn [In]. split; [intros [[->|H]|H]; auto|intros [H|[->|H]]; auto].
         -- intros y [->|Hy]; [exact Hx|apply C; exact Hy].
-      * destruct IH as (y & Hy & Hn). exists y. split; [now right|exact Hn].
-    + rewrite collect_none. exists x. split; [now left|lia]. Qed.
+      * destruct IH as (E & y & Hy & Hn). split; [exact E|]. exists y. split; [now right|exact Hn].
+    + rewrite collect_none. split; [reflexivity|]. exists x. split; [now left|lia]. Qed.
 
+End SetFire.
+Section SetFire2.
+Variable g : graph.
+Hypothesis Hwf : wfb g = true.
+Variable gg : dictD.
+Hypothesis Hgg : rep_graph gg g.
+Local Notation n := (nv g).
 Lemma set_fire_unfold dd so U : CFDivisor_set_fire gg dd so U =
-  match fold_left collect_body (so U) (Some []) with None => None | Some fsv =>
-  match fold_left (outer_body gg fsv) (so fsv) (Some dd) with None => None | Some dd' => Some dd' end end.
+  match fold_left (collect_body gg dd) (so U) (PyOk []) with PyExn e_ => PyExn e_ | PyOk fsv =>
+  match fold_left (outer_body gg fsv) (so fsv) (PyOk dd) with PyExn e_ => PyExn e_ | PyOk dd' => PyOk dd' end end.
 Proof. reflexivity. Qed.
 
 Lemma mem_same A B x : (forall y, In y A <-> In y B) -> mem x A = mem x B.
@@ -267,11 +275,11 @@ Proof. intros H. destruct (mem x A) eqn:E1, (mem x B) eqn:E2; try reflexivity.
 
 Theorem set_fire_refines dd D so U : rep_div n dd D -> (forall s, Permutation (so s) s) ->
   match CFDivisor_set_fire gg dd so U with
-  | None => forallb (inb g) U = false
-  | Some dd' => forallb (inb g) U = true /\ rep_div n dd' (fire_set g D U) end.
-Proof. intros HR Hso. rewrite set_fire_unfold. pose proof (collect_loop (so U) [] (NoDup_nil nat)) as HC.
-  destruct (fold_left collect_body (so U) (Some [])) as [fsv|].
-  2:{ destruct HC as (x & Hx & Hn). apply not_true_is_false. intros Q. rewrite forallb_forall in Q. apply Hn. apply Nat.ltb_lt. apply Q.
+  | PyExn st => forallb (inb g) U = false /\ st = dd
+  | PyOk dd' => forallb (inb g) U = true /\ rep_div n dd' (fire_set g D U) end.
+Proof. intros HR Hso. rewrite set_fire_unfold. pose proof (collect_loop g gg Hgg dd (so U) [] (NoDup_nil nat)) as HC.
+  destruct (fold_left (collect_body gg dd) (so U) (PyOk [])) as [fsv|e].
+  2:{ destruct HC as (E & x & Hx & Hn). split; [|exact E]. apply not_true_is_false. intros Q. rewrite forallb_forall in Q. apply Hn. apply Nat.ltb_lt. apply Q.
       apply (Permutation_in x (Hso U)). exact Hx. }
   destruct HC as (Nf & Mf & Vf).
   assert (EU : forall x, In x fsv <-> In x U).
@@ -309,4 +317,4 @@ Proof. intros HR Hso. rewrite set_fire_unfold. pose proof (collect_loop (so U) [
       * rewrite (zsum_ext (fun w => if mem w fsv then mult g u w else 0) (mult g u) fsv); [change (fun v : nat => mult g u v) with (mult g u); lia|]. intros w Hw. apply mem_In in Hw. rewrite Hw. reflexivity.
       * intros w Hw. apply in_seq. pose proof (VU w (proj1 (EU w) Hw)). lia.
       * intros w _ Hw. apply mem_false in Hw. rewrite Hw. reflexivity. Qed.
-End SetFire.
+End SetFire2.
